@@ -10,6 +10,7 @@ import (
 
 	"github.com/cloudwego/dynamicgo/proto"
 	"github.com/cloudwego/dynamicgo/proto/binary"
+	rw "google.golang.org/protobuf/encoding/protowire"
 )
 
 // 2009 / 2010: the descriptor-driven writer / reader of proto/binary against their as-coded Gallina model
@@ -201,26 +202,56 @@ func (a *anyConv) scalar(kind int, v *pgVal) interface{} {
 	}
 	r := a.r
 	if a.mode == 2 {
+		floats := []interface{}{float64(0), float64(-1.5), float64(2147483648.75), float64(-9.3e18), float64(1e19), float64(3e38),
+			float64(1e39), math.Inf(1), math.Inf(-1), math.NaN(), float32(7.9), float32(-3e9), float32(16777217), math.Float64frombits(r.next()),
+			math.Float32frombits(uint32(r.next())), float64(int64(r.next())), float64(1) / 3, float64(0.1), 1e-320, float64(math.MaxFloat32) * 1.00000003}
+		texts := []interface{}{"12", "-7", "+5", "x", "", "9223372036854775807", "9223372036854775808", "-9223372036854775808", "1_0", " 1",
+			[]byte("42"), []byte("-"), "007"}
 		switch kind {
 		case pgKString:
-			if r.chance(80) {
+			switch r.intn(4) {
+			case 0:
 				return append([]byte{}, v.B...)
+			case 1:
+				return []interface{}{int32(-7), int64(1) << 62, uint64(1) << 63, int8(-128), uint16(65535), int(0)}[r.intn(6)]
+			case 2:
+				return r.bool()
+			default:
+				return floats[r.intn(len(floats))] // FormatFloat: outside the model
 			}
-			return int32(7) // text conversion: outside the model
 		case pgKBytes:
 			return string(v.B) // no cast for bytes: error
 		case pgKFloat, pgKDouble:
-			if r.chance(50) {
+			switch r.intn(4) {
+			case 0:
 				return r.bool()
+			case 1:
+				return []interface{}{int32(3), int64(1)<<53 + 1, int64(-1)<<62 - 1, ^uint64(0), uint64(1)<<63 + 1025, int8(-1), uint32(16777217), int(33554433)}[r.intn(8)]
+			case 2:
+				f := floats[r.intn(len(floats))]
+				if kind == pgKFloat {
+					if x, ok := f.(float32); ok {
+						return float64(x)
+					}
+					return f
+				}
+				if x, ok := f.(float64); ok {
+					return float32(x)
+				}
+				return f
+			default:
+				return texts[r.intn(len(texts))] // ParseFloat: outside the model
 			}
-			return int32(3) // float conversion: outside the model
 		case pgKBool:
-			return []interface{}{int(r.intn(3)), int8(0), uint16(2), uint64(1) << 63, int64(-1), "", "x", []byte{}, float64(0), float32(1)}[r.intn(10)]
+			return []interface{}{int(r.intn(3)), int8(0), uint16(2), uint64(1) << 63, int64(-1), "", "x", []byte{}, float64(0), float32(1), math.NaN(), math.Copysign(0, -1)}[r.intn(12)]
 		case pgKEnum:
 			return int32(v.I.Int64()) // enums are not cast
 		}
-		if r.chance(5) {
-			return "12" // text conversion: outside the model
+		switch r.intn(5) {
+		case 0:
+			return floats[r.intn(len(floats))]
+		case 1:
+			return texts[r.intn(len(texts))]
 		}
 		return a.otherInt(kind, v)
 	}
@@ -464,6 +495,111 @@ func c20UnknownField(r *rng, s *pgSchema) []byte {
 	return b
 }
 
+// valid but non-canonical spellings of refb (top level): 0 a packed field written unpacked, 1 a [packed=false] field
+// written packed, 2 a run of a repeated field / map split by moving its last record to the front, 3 a singular varint
+// field written twice (another value first), 4 a bool written as varint 2. nil when the transformation does not apply.
+func c20NonCanon(r *rng, s *pgSchema, refb []byte, t int) []byte {
+	type rec struct {
+		num int32
+		wt  rw.Type
+		raw []byte // the whole record
+		val []byte // payload (without length prefix) for wt 2, the value bytes otherwise
+	}
+	var recs []rec
+	b := refb
+	for len(b) > 0 {
+		num, wt, tl := rw.ConsumeTag(b)
+		if tl < 0 {
+			return nil
+		}
+		vl := rw.ConsumeFieldValue(num, wt, b[tl:])
+		if vl < 0 {
+			return nil
+		}
+		rc := rec{num: int32(num), wt: wt, raw: b[:tl+vl], val: b[tl : tl+vl]}
+		if wt == rw.BytesType {
+			p, _ := rw.ConsumeBytes(b[tl:])
+			rc.val = p
+		}
+		recs = append(recs, rc)
+		b = b[tl+vl:]
+	}
+	root := s.msg(s.Root)
+	var idx []int
+	for i, rc := range recs {
+		f := root.byNum(rc.num)
+		if f == nil {
+			continue
+		}
+		ok := false
+		switch t {
+		case 0:
+			ok = f.Label == pgRepeated && pgIsNumKind(f.Kind) && !f.Unpacked && rc.wt == rw.BytesType
+		case 1:
+			ok = f.Label == pgRepeated && f.Unpacked && (i == 0 || recs[i-1].num != rc.num)
+		case 2:
+			ok = f.Label != pgSingular && i > 0 && recs[i-1].num == rc.num && (i+1 == len(recs) || recs[i+1].num != rc.num)
+		case 3:
+			ok = f.Label == pgSingular && rc.wt == rw.VarintType
+		case 4:
+			ok = f.Label == pgSingular && f.Kind == pgKBool && len(rc.val) == 1 && rc.val[0] == 1
+		}
+		if ok {
+			idx = append(idx, i)
+		}
+	}
+	if len(idx) == 0 {
+		return nil
+	}
+	i := idx[r.intn(len(idx))]
+	rc := recs[i]
+	f := root.byNum(rc.num)
+	var out []byte
+	emit := func(from, to int) {
+		for _, x := range recs[from:to] {
+			out = append(out, x.raw...)
+		}
+	}
+	switch t {
+	case 0:
+		emit(0, i)
+		p := rc.val
+		ewt := rw.Type(pgWireType(f.Kind))
+		for len(p) > 0 {
+			l := rw.ConsumeFieldValue(rw.Number(rc.num), ewt, p)
+			if l < 0 {
+				return nil
+			}
+			out = append(rw.AppendTag(out, rw.Number(rc.num), ewt), p[:l]...)
+			p = p[l:]
+		}
+		emit(i+1, len(recs))
+	case 1:
+		emit(0, i)
+		j := i
+		var p []byte
+		for j < len(recs) && recs[j].num == rc.num {
+			p = append(p, recs[j].val...)
+			j++
+		}
+		out = rw.AppendBytes(rw.AppendTag(out, rw.Number(rc.num), rw.BytesType), p)
+		emit(j, len(recs))
+	case 2:
+		out = append(out, rc.raw...)
+		emit(0, i)
+		emit(i+1, len(recs))
+	case 3:
+		emit(0, i)
+		out = rw.AppendVarint(rw.AppendTag(out, rw.Number(rc.num), rw.VarintType), uint64(1+r.intn(3)))
+		emit(i, len(recs))
+	case 4:
+		emit(0, i)
+		out = append(rw.AppendTag(out, rw.Number(rc.num), rw.VarintType), 2)
+		emit(i+1, len(recs))
+	}
+	return out
+}
+
 func genC20Any(r *rng, n int) {
 	nschemas := 6 + n/400
 	for si := 0; si < nschemas; si++ {
@@ -511,6 +647,66 @@ func genC20Any(r *rng, n int) {
 				return nil
 			}
 			wb := emitW(gv, false, dis, byName, 0)
+			// 2013: the TypeDescriptor of a repeated / map field at the top
+			nTop := 0
+			for _, fv := range v.Fields {
+				if fv.F.Label == pgSingular || nTop >= 2 || !rr.chance(60) {
+					continue
+				}
+				var x interface{}
+				if byName {
+					x = gv.(map[string]interface{})[fv.F.Name]
+				} else {
+					x = gv.(map[proto.FieldNumber]interface{})[proto.FieldNumber(fv.F.Num)]
+				}
+				fdesc := c.Dyn.Message().ByNumber(proto.FieldNumber(fv.F.Num))
+				gf, gok := gvEmit(x)
+				if fdesc == nil || !gok {
+					continue
+				}
+				nTop++
+				needLen, hasLen, dis2 := rr.bool(), rr.bool(), rr.bool()
+				var tb []byte
+				var werr error
+				okw, _ := noPanic(func() {
+					p := binary.NewBinaryProtocolBuffer()
+					werr = p.WriteAnyWithDesc(fdesc.Type(), x, needLen, false, dis2, byName)
+					tb = append([]byte{}, p.Buf...)
+					binary.FreeBinaryProtocol(p)
+				})
+				wc := berr(werr)
+				if !okw {
+					wc = "n3"
+				}
+				fields := append(append([]string{}, sf...), fb(byName), fb(needLen), fb(hasLen), fb(dis2), fi(int(fv.F.Num)))
+				fields = append(fields, gf...)
+				fields = append(fields, wc, fx(tb))
+				var g2 interface{}
+				var rerr error
+				left := 0
+				okr, _ := noPanic(func() {
+					p := binary.NewBinaryProtol(append([]byte{}, tb...))
+					g2, rerr = p.ReadAnyWithDesc(fdesc.Type(), hasLen, true, false, byName)
+					left = p.Left()
+					binary.FreeBinaryProtocol(p)
+				})
+				switch {
+				case !okr:
+					fields = append(fields, "n3", "n0")
+				case rerr != nil:
+					fields = append(fields, "n1", "n0")
+				default:
+					g2f, ok2 := gvEmit(g2)
+					if !ok2 {
+						fields = append(fields, "n4", "n0")
+					} else {
+						fields = append(fields, "n0")
+						fields = append(fields, g2f...)
+						fields = append(fields, fi(left))
+					}
+				}
+				out.emit(2013, fields...)
+			}
 			// deviant values (cast=false) and other Go types (cast=true): at most one entry per map
 			for mode := 1; mode <= 2; mode++ {
 				d := &anyConv{c: c, r: rr, byName: byName, strIface: rr.chance(25), trim: true, mode: mode, budget: 1 + rr.intn(2)}
@@ -525,6 +721,11 @@ func genC20Any(r *rng, n int) {
 			}
 			if wb != nil {
 				c20EmitRead(sf, c, wb, rr.bool(), byName)
+			}
+			for t := 0; t < 5; t++ {
+				if nb := c20NonCanon(rr, s, refb, t); nb != nil {
+					c20EmitRead(sf, c, nb, false, byName)
+				}
 			}
 			// an unknown field appended / prepended
 			u := c20UnknownField(rr, s)
